@@ -5,6 +5,8 @@ import Mathlib.Tactic.Linarith
 import Mathlib.Tactic.LinearCombination
 import Propka.Proofs.Scoring
 import Propka.Proofs.Rotation
+import Propka.Model.Setup
+import Mathlib.Tactic.FieldSimp
 /-! # C04 — predictions do not depend on where the structure sits in space
 
 All geometry enters the heavy-atom part of the model through squared distances.  On the exact
@@ -231,3 +233,45 @@ example (t : P3 ℝ) : Isometric (affine ⟨0, -1, 0⟩ ⟨1, 0, 0⟩ ⟨0, 0, 1
 
 end Propka.Scoring
 
+
+/-! ## group centres (`Model/Setup.lean`: `set_center`) under affine maps -/
+namespace Propka.Scoring
+open Propka.Angle Propka.Setup
+
+/-- the linear part of `affine` -/
+def linear (r1 r2 r3 : P3 ℝ) (v : P3 ℝ) : P3 ℝ :=
+  ⟨r1.x * v.x + r1.y * v.y + r1.z * v.z, r2.x * v.x + r2.y * v.y + r2.z * v.z, r3.x * v.x + r3.y * v.y + r3.z * v.z⟩
+
+def sumPos (pos : Nat → P3 ℝ) (as : List Nat) (acc : P3 ℝ) : P3 ℝ :=
+  as.foldl (fun (acc : P3 ℝ) a => ⟨acc.x + (pos a).x, acc.y + (pos a).y, acc.z + (pos a).z⟩) acc
+
+theorem sumPos_affine (r1 r2 r3 t : P3 ℝ) (pos : Nat → P3 ℝ) (as : List Nat) (acc : P3 ℝ) (k : ℝ) :
+    sumPos (fun i => affine r1 r2 r3 t (pos i)) as
+        ⟨(linear r1 r2 r3 acc).x + k * t.x, (linear r1 r2 r3 acc).y + k * t.y, (linear r1 r2 r3 acc).z + k * t.z⟩
+      = ⟨(linear r1 r2 r3 (sumPos pos as acc)).x + (k + as.length) * t.x, (linear r1 r2 r3 (sumPos pos as acc)).y + (k + as.length) * t.y,
+         (linear r1 r2 r3 (sumPos pos as acc)).z + (k + as.length) * t.z⟩ := by
+  induction as generalizing acc k with
+  | nil => simp [sumPos]
+  | cons a as ih =>
+    simp only [sumPos, List.foldl_cons, List.length_cons, Nat.cast_add, Nat.cast_one] at ih ⊢
+    have := ih ⟨acc.x + (pos a).x, acc.y + (pos a).y, acc.z + (pos a).z⟩ (k + 1)
+    simp only [linear, affine] at this ⊢
+    convert this using 2 <;> ring
+
+/-- **The centre of a group moves with the structure**: the mean of the positions of a non-empty atom list commutes with
+    every affine map, in particular with every rigid motion - so the group centres that `envOf` reads are the moved centres. -/
+theorem centreOf_affine (r1 r2 r3 t : P3 ℝ) (pos : Nat → P3 ℝ) (as : List Nat) (hne : as ≠ []) :
+    centreOf (fun i => affine r1 r2 r3 t (pos i)) as = affine r1 r2 r3 t (centreOf pos as) := by
+  have hn : ((as.length : ℕ) : ℝ) ≠ 0 := by
+    have : 0 < as.length := List.length_pos_iff.mpr hne
+    exact_mod_cast this.ne'
+  have h := sumPos_affine r1 r2 r3 t pos as ⟨0, 0, 0⟩ 0
+  simp only [linear, mul_zero, add_zero, zero_mul, zero_add] at h
+  unfold centreOf
+  simp only [Nat.cast_zero]
+  unfold sumPos at h
+  rw [h]
+  simp only [affine, linear]
+  congr 1 <;> field_simp
+
+end Propka.Scoring
